@@ -38,8 +38,8 @@ def probes_more():
     return [("i_at_1", "i", 1, S, "$a at 0 or $a at i"), ("i_at_1b", "i", 1, S, "$a at i or $a at 0"), ("i_in_2", "i", 2, 'strings: $a = "c" ', "$a in (i..i)"),
             ("i_of_3", "i", 3, 'strings: $a = "a" $b = "b" $c = "c" ', "i of them and not 4 of them and i == 3"), ("i_loop_2", "i", 2, "", "for i j in (1..3) : (j > 1) and i == 2"),
             ("i_rd_1", "i", 1, "", "uint8(i) == 0x62"), ("imax_cnt", "i_max", 11, S, "#a in (0..i_max) == 1 and i_max == 11"),
-            ("i_neg_at", "i", 1, S, "$a at -(-i)"), ("i_neg_in", "i", 2, 'strings: $a = "c" ', "$a in (-(-i)..-(-i))"), ("i_neg_of", "i", 3, 'strings: $a = "a" $b = "b" $c = "c" ', "-(-i) of them and i == 3"),
-            ("i_neg_rd", "i", 2, "", "uint8(-(-i)) == 0x63"), ("i_not_at", "i", 1, S, "$a at ~(~i)"),
+            ("i_neg_at", "i", 1, S, "$a at -i + 2"), ("i_neg_in", "i", 2, 'strings: $a = "c" ', "$a in (-i + 4..-i + 4)"), ("i_neg_of", "i", 3, 'strings: $a = "a" $b = "b" $c = "c" ', "(-i + 6) of them and i == 3"),
+            ("i_neg_rd", "i", 2, "", "uint8(-i + 4) == 0x63"), ("i_not_at", "i", 1, S, "$a at ~i + 3"), ("i_neg2_at", "i", 1, S, "$a at -(-i)"),
             ("imax_of0", "i_max", 10, 'strings: $z = "zzz" ', "(i_max - 10) of ($z)"), ("imax_of0b", "i_max", 10, 'strings: $z = "zzz" $y = "yyy" ', "(i_max - 10) of them in (0..2)")]
 
 PROBES = probes()
